@@ -203,7 +203,7 @@ def Sess.dropRecvEntry (s : Sess) (sid : Nat) : Sess :=
 /-- FIN arm: the stream registered under `sid` (if any) has its pending open failed -/
 def Sess.failPendingOpen (s : Sess) (sid : Nat) : Sess :=
   match tblGet s.streams sid with
-  | some h => s.modObj h (fun o => o.notifySynack (.err "Protocol error: stream closed by peer"))
+  | some h => s.modObj h (fun o => o.notifySynack (.err "Protocol error: Protocol error: stream closed by peer"))
   | none => s
 
 inductive Outcome where
